@@ -237,6 +237,46 @@ def write_oracle(H: list, writes: list, tmp: Path, tag: str) -> list:
     return fails
 
 
+def multi_table_oracle(Hs: list, tmp: Path, tag: str) -> list:
+    """Several tables of one document (the second on the first sheet, the third on a sheet of its own), each with its
+    own stroke history, the strokes interleaved: every table shows exactly its own last-writer picture, on the open
+    document and after save and reopen (a border belongs to the table it was drawn in)."""
+    from numbers_parser import RGB, Border, Document
+    fails = []
+    try:
+        doc, t0 = new_table()
+        tables = [t0]
+        if len(Hs) > 1:
+            tables.append(doc.sheets[0].add_table("Second", num_rows=NR, num_cols=NC))
+        if len(Hs) > 2:
+            doc.add_sheet("Other", "Third", num_rows=NR, num_cols=NC)
+            tables.append(doc.sheets[-1].tables[0])
+        Ss = [strokes_only(H) for H in Hs]
+        objs = {}
+        for k in range(max(len(S) for S in Ss)):
+            for ti, S in enumerate(Ss):
+                if k < len(S):
+                    _, side, r, c, ln, oi, (w, col, pat) = S[k]
+                    if (ti, oi) not in objs:
+                        objs[(ti, oi)] = Border(float(w), RGB(*col), pat)
+                    tables[ti].set_cell_border(r, c, side, objs[(ti, oi)], ln)
+        mem = [snapshot(t) for t in tables]
+        p = tmp / f"{tag}_mt.numbers"
+        doc.save(p)
+        d2 = Document(p)
+        back = [d2.sheets[0].tables[0]] + ([d2.sheets[0].tables[1]] if len(Hs) > 1 else []) + ([d2.sheets[1].tables[0]] if len(Hs) > 2 else [])
+        rel = [snapshot(t) for t in back]
+    except Exception as e:  # noqa: BLE001
+        return [("border-history-raises", f"multi-table: {type(e).__name__}: {e}")]
+    for ti, S in enumerate(Ss):
+        want = lww_reference(S)
+        if mem[ti] != want:
+            fails.append(("multi-table:memory", f"table #{ti} of {len(Ss)}, open document: " + first_diff(mem[ti], want) + " (own last writer)"))
+        if rel[ti] != want:
+            fails.append(("multi-table:reload", f"table #{ti} of {len(Ss)}, after save and reopen: " + first_diff(rel[ti], want) + " (own last writer)"))
+    return fails
+
+
 # ---------------------------------------------------------------- borders: generator
 def gen_border_history(rng, n_strokes=None, nr=NR, nc=NC):
     H = []
@@ -400,6 +440,19 @@ def run(ctx: Ctx) -> int:
         for sig, detail in write_oracle(H, writes, ctx.tmp, f"w{i}"):
             ctx.oracle_fail(sig, {"kind": "borders-writes", "history": H, "writes": writes}, detail)
 
+    # ---- A3. borders of several tables of one document do not mix (implementation only)
+    for i in range(10 if ctx.quick else 120):
+        Hs = [gen_border_history(rng, n_strokes=rng.randrange(1, 7)) for _ in range(rng.choice([2, 3]))]
+        if i % 2 == 0:
+            # the same side and the same row/column index in every table
+            for H in Hs[1:]:
+                H[:0] = [op[:5] + [100 + op[5]] + op[6:] for op in strokes_only(Hs[0])[:2]]   # Border objects of their own
+        Hs = [strokes_only(H) for H in Hs]
+        ctx.count("oracle-multi-table-borders")
+        ctx.nontrivial(("multi-table", json.dumps(Hs)))
+        for sig, detail in multi_table_oracle(Hs, ctx.tmp, f"mt{i}"):
+            ctx.oracle_fail(sig, {"kind": "borders-multi-table", "histories": Hs}, detail)
+
     # ---- B. styles
     from . import c15_styles
     c15_styles.run_styles(ctx, exe)
@@ -438,6 +491,8 @@ def replay(path: str) -> int:
         with tempfile.TemporaryDirectory() as td:
             if case.get("kind") == "borders":
                 fails = border_oracle(case["history"], Path(td), "replay")
+            elif case.get("kind") == "borders-multi-table":
+                fails = multi_table_oracle(case["histories"], Path(td), "replay")
             elif case.get("kind") == "borders-writes":
                 fails = write_oracle(case["history"], case["writes"], Path(td), "replay")
             else:
